@@ -4,4 +4,4 @@ set -e
 cd /verif/ocaml
 C=/verif/coq
 coqc -Q $C/gen Morlock.gen -Q $C/Model Morlock.Model -Q $C/Spec Morlock.Spec -Q $C/Lemmas Morlock.Lemmas -Q $C/Impl Morlock.Impl Extract.v > extract.log 2>&1 || { cat extract.log; exit 1; }
-ocamlfind ocamlopt -package str -linkpkg -w -a model.mli model.ml conv.ml common.ml dispatch2.ml dispatch3.ml dispatch4.ml dispatch5.ml dispatch6.ml dispatch.ml driver.ml -o /verif/build/vdriver
+ocamlfind ocamlopt -package str -linkpkg -w -a model.mli model.ml conv.ml common.ml dispatch2.ml dispatch3.ml dispatch4.ml dispatch5.ml dispatch6.ml dispatch7.ml dispatch.ml driver.ml -o /verif/build/vdriver
